@@ -240,11 +240,47 @@ def run(ck):
         paths = paths_of(prog, th2, max_paths=200)
         rets = [p for p in paths if p.outcome == "return"]
         ck.check(len(rets) >= 1, "C12.R4", "LambdaCallback:constructible", lam.module.relpath + ":LambdaCallback", "no path constructs a LambdaCallback from six callables")
+    # by behaviour: every event of a LambdaCallback calls the function given for it (and nothing else) with the event's arguments -
+    # also when another LambdaCallback, with other functions or with none for that event, has been built in between
+    NARGS = {"on_train_start": 1, "on_train_end": 1, "on_epoch_start": 2, "on_epoch_end": 2, "on_batch_start": 3, "on_batch_end": 3}
+    with ck.guard("C12.R4", "LambdaCallback/dispatch"):
+        def th3(it):
+            def mkfns(pfx, evs):
+                out = {}
+                for ev in evs:
+                    f = VUnknown("%s_%s" % (pfx, ev), "unknown")
+                    f.callable = True
+                    f.not_none = True
+                    out[ev] = f
+                return out
+
+            f1 = mkfns("f", P.EVENTS)
+            cb1 = it.instantiate(lam, [], dict(f1), None)
+            g2 = mkfns("g", ["on_epoch_end"])
+            cb2 = it.instantiate(lam, [], dict(g2), None)
+            st = VUnknown("nn_state", "unknown")
+            rec = {}
+            for who, cb in (("first", cb1), ("second", cb2)):
+                for ev in P.EVENTS:
+                    a = [st, VNum("int", T.sym("epoch"), pos=True), VNum("int", T.sym("batch"), nonneg=True)][:NARGS[ev]]
+                    n0 = len(getattr(it, "opaque_log", []))
+                    call(it, cb, ev, *a)
+                    rec[(who, ev)] = ([u for u in getattr(it, "opaque_log", [])[n0:]], a)
+            return rec
+
+        for p in [q for q in paths_of(prog, th3, max_paths=60, sticky=True) if q.outcome == "return"]:
+            for (who, ev), (calls_, a) in p.value.items():
+                user = [(str(u[0]), u[1]) for u in calls_ if str(u[0]).startswith(("f_", "g_"))]
+                want = [("f_" + ev, a)] if who == "first" else ([("g_" + ev, a)] if ev == "on_epoch_end" else [])
+                okc = [t_ for t_, _ in user] == [t_ for t_, _ in want] and all(len(x[1]) == len(y[1]) and all(p_ is q_ for p_, q_ in zip(x[1], y[1])) for x, y in zip(user, want))
+                ck.check(okc, "C12.R4", "LambdaCallback.%s of the %s callback calls its own function" % (ev, who), lam.module.relpath + ":LambdaCallback.__init__",
+                         "%s of the %s of two LambdaCallbacks calls %s; expected %s (the functions of one callback must not be visible to another)" % (ev, who, [t_ for t_, _ in user], [t_ for t_, _ in want]),
+                         key="C12.R4|LambdaCallback|%s %s" % (who, ev))
+    with ck.guard("C12.R4", "LambdaCallback/validation"):
+        paths = paths_of(prog, th2, max_paths=200)
+        rets = [p for p in paths if p.outcome == "return"]
         for p in rets:
             fns, obj = p.value
-            for ev in P.EVENTS:
-                ck.check(obj.inst.attrs.get(ev) is fns[ev], "C12.R4", "LambdaCallback.%s bound" % ev, lam.module.relpath + ":LambdaCallback.__init__",
-                         "the function given for %s is not the one installed for that event" % ev)
             vcalls = [c for c in p.calls if c[0].endswith("_validate_function")]
             seen = {}
             for c in vcalls:
